@@ -28,6 +28,7 @@ import Sqfs.Proofs.C02Worker
 import Sqfs.Proofs.BPFailRun
 import Sqfs.Proofs.BPSPCor
 import Sqfs.Props.C17
+import Sqfs.Proofs.C02Env
 import Sqfs.Witness.C02
 import Sqfs.Props.C09
 import Sqfs.Model.BuildEnv
@@ -446,12 +447,32 @@ example :
   · exact helper 3 (by decide +kernel)
   · exact helper 40 (by decide +kernel)
 
-/-! ### environment -/
+/-! ### environment
+
+What is **proved** about the environment clause, and what is only **exercised**:
+
+* proved, about models: (1) `times_depend_only_on_source_date_epoch` — in the model of where time stamps come from
+  (`Model/BuildEnv.lean`) they are a function of the input, the options and `SOURCE_DATE_EPOCH`; the model simply has no
+  path from the clock, `TZ`, the locale, the umask or the working directory to a time stamp, so this theorem is a statement
+  about the *model*, true by its construction; that the model is the code is decided by the runs.  (2)
+  `tree_order_bytewise` — the order of directory entries (hence of inode numbers and of the file list) is fixed by the
+  *bytes* of the names: the model of `insert_sorted` (fstree.c) compares with `strcmp` (`nameLt`, a strict total order),
+  and the list it builds is the only strictly sorted arrangement (cites `Sqfs.C11.insertSorted_sorted`); no collation
+  order, case folding or character class enters.
+* exercised, on the real tools (tools/checks/c02.py, tool level): `TZ` × `LC_ALL` × umask × cwd × CPU affinity × a faked
+  clock; and — because no locale other than C can be installed in the sandbox — a **hostile locale behind the
+  locale-sensitive entry points of libc** (harness/shim_c02_locale.c: `setlocale` accepted, `strcoll`/`strxfrm` reversed and
+  case folded, Turkish case mapping in `strcasecmp`/`tolower`/the ctype tables, `,` as decimal point, a UTC+13:45 zone
+  behind `localtime`/`mktime`) on file names whose `strcmp` order differs from every collation (mixed case, punctuation,
+  UTF-8 and Latin-1/5 letters, dotted/dotless i): the image must not change, and every call of such a function is recorded
+  (currently: none but the `isdigit`/`isspace` macros; no `setlocale`; the only environment variable asked for is
+  `SOURCE_DATE_EPOCH`). -/
 
 /-- **Environment clause (model level).**  The time stamps of an image — the super block's `modification_time` and
 every inode's `mod_time` — are the same in two process environments that agree on `SOURCE_DATE_EPOCH`, whatever the
-wall clock, time zone, locale, umask and working directory are.  (That the tools consult nothing else is decided by
-the tool-level runs of tools/checks/c02.py with a faked clock and varied environments.) -/
+wall clock, time zone, locale, umask and working directory are.  (True by construction of `Model/BuildEnv.lean`, which has no
+other input; that the tools consult nothing else is decided by the tool-level runs of tools/checks/c02.py with a faked
+clock, a hostile locale shim and varied environments.) -/
 theorem times_depend_only_on_source_date_epoch (e1 e2 : ProcessEnv) (o : Options) (inputs : List Int)
     (h : e1.sourceDateEpoch = e2.sourceDateEpoch) : imageTimes e1 o inputs = imageTimes e2 o inputs := by
   simp [imageTimes, superMtime, inodeMtime, defaultMtime, h]
@@ -463,6 +484,21 @@ theorem source_date_epoch_default (s : List UInt8) (h : sdeDigits s 0 = none) :
   cases s with
   | nil => rfl
   | cons a t => simp [sourceDateEpoch, h]
+
+/-- **`tree_order_bytewise`** (environment clause, locale).  The children list `insert_sorted` (fstree.c) builds from nodes with
+pairwise different names — in whatever order they arrive — is the *only* arrangement of these nodes that is strictly
+sorted by `strcmp` (`nameLt`: lexicographic on unsigned bytes).  So the order of directory entries, and with it the inode
+numbering and the file list (`Sqfs.C11.numbering_deterministic`), is a function of the names' bytes: a locale has no say. -/
+theorem tree_order_bytewise (nodes : List Sqfs.FsTree.TNode) (hnd : (nodes.map Sqfs.FsTree.TNode.name).Nodup)
+    (l : List Sqfs.FsTree.TNode) (hp : l.Perm nodes) (hs : Sqfs.FsTree.SortedNames (l.map Sqfs.FsTree.TNode.name)) :
+    l = nodes.foldl (fun acc n => Sqfs.FsTree.insertSorted n acc) [] :=
+  Sqfs.FsTree.sorted_children_unique nodes hnd l hp hs
+
+/-- non-vacuity: `B`, `a`, `_x` arrive in the order a case-folding, punctuation-blind collation would produce
+(`a`, `B`, `_x`); `insert_sorted` yields the byte order `B` (0x42) < `_x` (0x5f) < `a` (0x61) -/
+example :
+    ([Sqfs.FsTree.TNode.mk [0x61] default [], .mk [0x42] default [], .mk [0x5f, 0x78] default []].foldl
+      (fun acc n => Sqfs.FsTree.insertSorted n acc) []).map Sqfs.FsTree.TNode.name = [[0x42], [0x5f, 0x78], [0x61]] := by decide
 
 /-! ### non-vacuity: the hypotheses are satisfiable on a non-trivial instance -/
 
